@@ -100,6 +100,7 @@ def run(prog, tier, extra=None):
     res = Result("C07", "other")
     R1 = res.rule("C07.same-source", "producer and validator call the same functions for consensus values and required work, with matching argument provenance", floor=3)
     R3 = res.rule("C07.scan-covers-block", "the producer's double-spend scan runs after the last transaction is added to the block", floor=1)
+    R5 = res.rule("C07.fee-slip-index", "each output of the expected fee transaction carries its position as slip_index (signing renumbers the block's copy by position)", floor=1)
     R4 = res.rule("C07.fee-tx-presence", "the producer appends the fee transaction exactly when the consensus values contain one", floor=1)
     R2 = res.rule("C07.field-correspondence", "every header field the validator compares with a consensus value is produced from the same consensus value", floor=22)
     bv = BlockValidate(prog)
@@ -320,6 +321,130 @@ def run(prog, tier, extra=None):
                             "(which requires exactly that transaction) rejects the node's own block", cr.loc(bad[0]), {"path": [cr.loc(x) for x in bad[1][:12]]}))
         else:
             res.sample({"rule": R4, "tests": [cr.loc(sb) for sb, _ in some_edges], "appends": [cr.loc(x) for x in adds], "verdict": "appended whenever expected"})
+    # R5: Block::create signs the fee transaction, and signing / Transaction::generate number the outputs by position. The validator
+    # hashes the *expected* fee transaction as generate_consensus_values built it, so every output added there must carry
+    # slip_index == number of outputs added before it - on every path (which outputs exist depends on the payouts). Decided by
+    # enumerating the paths of the construction region with the integer values of the counters it uses.
+    GCVP = BLK + "generate_consensus_values::{closure#0}"
+    gb = prog.body(GCVP)
+    if gb is None:
+        raise LookupError("generate_consensus_values not found")
+    gch = Chaser(gb)
+    fee_local = None
+    end_bb = None
+    end_blocks = set()
+    for bb, blk in enumerate(gb.blocks):
+        for st in blk["s"]:
+            if st[0] == "=" and st[1][1] and any(isinstance(pr, list) and pr[0] == "f" and pr[3] == "fee_transaction" and pr[2].endswith("ConsensusValues") for pr in st[1][1]):
+                rv = st[2]
+                if rv[0] == "use" and rv[1][0] in ("mv", "cp") and not rv[1][1][1]:
+                    for d in gb.defs(rv[1][1][0]):       # `_tmp = Some(move transaction); cv.fee_transaction = move _tmp`
+                        if d[0] == "stmt" and d[3][0] == "agg":
+                            rv = d[3]
+                if rv[0] == "agg" and rv[1][0] == "adt" and rv[1][2] == "Some" and rv[2] and rv[2][0][0] in ("mv", "cp") and not rv[2][0][1][1]:
+                    fl = rv[2][0][1][0]
+                    for _ in range(6):       # `_t = move transaction; Some(move _t)`
+                        ds = gb.defs(fl)
+                        if len(ds) == 1 and ds[0][0] == "stmt" and ds[0][3][0] == "use" and ds[0][3][1][0] in ("mv", "cp") and not ds[0][3][1][1][1]:
+                            fl = ds[0][3][1][1][0]
+                        else:
+                            break
+                    fee_local, end_bb = fl, bb
+                    end_blocks.add(bb)
+    res.instance(R5)
+    if fee_local is None:
+        res.add(Finding(R5, "C07.fee-slip-index|anchors", "generate_consensus_values: the statement cv.fee_transaction = Some(transaction) was not found", gb.loc(0)))
+    else:
+        starts = [d[1] for d in gb.defs(fee_local)]
+        ADD = CORE + "consensus::transaction::Transaction::add_to_slip"
+
+        def val(op, ints):
+            if op[0] == "k":
+                return op[1].get("v") if isinstance(op[1].get("v"), int) else None
+            if op[0] in ("cp", "mv"):
+                pl = op[1]
+                if not pl[1]:
+                    return ints.get(pl[0])
+                if len(pl[1]) == 1 and isinstance(pl[1][0], list) and pl[1][0][0] == "f" and pl[1][0][3] == "0":
+                    return ints.get(pl[0])
+            return None
+        problems = {}
+        undecided = set()
+        paths = [0]
+
+        def walk_paths(bb, ints, slips, alias, adds, seen):
+            if paths[0] > 4000 or bb in seen:
+                return
+            seen = seen | {bb}
+            ints, slips, alias = dict(ints), dict(slips), dict(alias)
+            for st in gb.stmts(bb):
+                if st[0] != "=":
+                    continue
+                dst, rv = st[1], st[2]
+                if not dst[1]:
+                    v = None
+                    if rv[0] == "use":
+                        v = val(rv[1], ints)
+                        if rv[1][0] in ("cp", "mv") and not rv[1][1][1] and rv[1][1][0] in alias:
+                            alias[dst[0]] = alias[rv[1][1][0]]
+                    elif rv[0] == "cast":
+                        v = val(rv[2], ints)
+                    elif rv[0] == "bin" and rv[1].startswith(("Add", "Sub")):
+                        a_, b_ = val(rv[2], ints), val(rv[3], ints)
+                        v = (a_ + b_ if rv[1].startswith("Add") else a_ - b_) if a_ is not None and b_ is not None else None
+                    elif rv[0] == "ref" and not rv[2][1]:
+                        alias[dst[0]] = alias.get(rv[2][0], rv[2][0])
+                    ints[dst[0]] = v
+                elif len(dst[1]) == 1 and isinstance(dst[1][0], list) and dst[1][0][0] == "f" and dst[1][0][3] == "slip_index" and dst[1][0][2].endswith("slip::Slip"):
+                    slips[dst[0]] = val(rv[1], ints) if rv[0] == "use" else (val(rv[2], ints) if rv[0] == "cast" else None)
+                    slips[("set", dst[0])] = True
+            t = gb.term(bb)
+            if t["k"] == "call":
+                name = t.get("res") or t.get("callee") or ""
+                if name == ADD and len(t["args"]) == 2:
+                    recv = t["args"][0]
+                    rl = recv[1][0] if recv[0] in ("cp", "mv") else None
+                    if alias.get(rl, rl) == fee_local:
+                        a1 = t["args"][1]
+                        sl = a1[1][0] if a1[0] in ("cp", "mv") else None
+                        sl = alias.get(sl, sl)
+                        got = slips.get(sl)
+                        if not slips.get(("set", sl)):
+                            got = 0          # Slip::default()
+                        if got is None:
+                            undecided.add(bb)
+                        elif got != adds:
+                            problems.setdefault(bb, (got, adds))
+                        adds += 1
+                elif (call_name(t) or "").endswith("Clone::clone") and t["args"] and not t["dest"][1]:
+                    a0 = t["args"][0]
+                    src = a0[1][0] if a0[0] in ("cp", "mv") else None
+                    alias[t["dest"][0]] = alias.get(src, src)
+                elif not t["dest"][1]:
+                    ints[t["dest"][0]] = None
+                    if (call_name(t) or "").endswith("Default::default"):
+                        slips.pop(t["dest"][0], None)
+                        slips.pop(("set", t["dest"][0]), None)
+            if bb in end_blocks:
+                paths[0] += 1
+                return
+            for s2 in gb.succ(bb):
+                walk_paths(s2, ints, slips, alias, adds, seen)
+        import sys as _sys
+        _sys.setrecursionlimit(max(_sys.getrecursionlimit(), 20000))
+        for sb in starts:
+            walk_paths(sb, {}, {}, {}, 0, frozenset())
+        if problems:
+            bb, (got, want) = sorted(problems.items())[0]
+            res.add(Finding(R5, "C07.fee-slip-index|position", "generate_consensus_values can add an output to the expected fee transaction with slip_index %d at position %d: the "
+                            "producer's signed copy is renumbered by position, so the validator's hash of the expected transaction differs and the node rejects its "
+                            "own block" % (got, want), gb.loc(bb)))
+        elif undecided:
+            res.not_decided.append("C07.fee-slip-index: slip_index value not a tracked integer at %s" % [gb.loc(x) for x in sorted(undecided)][:3])
+        elif paths[0] == 0:
+            res.add(Finding(R5, "C07.fee-slip-index|anchors", "no path from the creation of the fee transaction to cv.fee_transaction = Some(..) was found", gb.loc(end_bb)))
+        else:
+            res.sample({"rule": R5, "paths": paths[0], "verdict": "on every path each output's slip_index equals its position"})
     # producer and validator agree only if cached per-transaction values are the ones the validator recomputes
     from ._include import include
     include(res, prog, tier, extra, "c13", ["C13.compare", "C13.derive"],
